@@ -483,7 +483,9 @@ def _pair_block(fb: Flat, fa: Flat, i1: int, i2: int, j1: int, j2: int) -> list[
 # operand of `not`, unquotes quoted names).  They name the mechanism only when nothing else
 # differs.
 _BY_DESIGN = {"LPAREN-><missing>@expr", "RPAREN-><missing>@expr", "<missing>->LPAREN@expr",
-              "<missing>->RPAREN@expr", "STRING->PATH@expr"}
+              "<missing>->RPAREN@expr", "STRING->PATH@expr",
+              # `include … for` and `include … with` are the same thing to IncludeNode.render
+              "FOR->WITH@include"}
 
 
 def _prioritise(divs: list[str]) -> list[str]:
@@ -652,7 +654,10 @@ def minimise(case: Case, f: Failure, budget: int = 420) -> tuple[Case, Failure]:
         ff = fails(c2)
         if ff is None:
             return False
-        if same_key is not None and mech_key(c2.kind, ff)[0] != same_key:
+        if same_key is not None and (text.count(",") < cur.text().count(",")
+                                     or mech_key(c2.kind, ff)[0] != same_key):
+            # (deleting a comma turns `f: a, b` into the equally legal `f: a b`, which is
+            # another way into the same defect and would only multiply the keys)
             return False
         cur, curf = c2, ff
         return True
@@ -775,18 +780,19 @@ class Monitor:
         self.confirmed: set[str] = set()
         self.minimised = 0
 
-    def _report(self, case: Case, f: Failure) -> str:
+    def _report(self, case: Case, f: Failure, calibration: bool = False) -> str:
         """Attribute the failure to a mechanism.  A divergence that an already minimised
         witness has shown to be causal (in this shard) is taken as the mechanism without
         minimising again; otherwise the case is minimised and keyed from the result."""
         ctx = self.ctx
-        ctx.count("failures:" + f.coarse)
+        if not calibration:
+            ctx.count("failures:" + f.coarse)
         prefix, divs, what = key_parts(case.kind, f)
         for d in divs:
             if prefix + d in self.confirmed:
                 ctx.violation(prefix + d, what, case.witness())
                 return prefix + d
-        if self.minimised >= MAX_MINIMISE_PER_SHARD:
+        if self.minimised >= MAX_MINIMISE_PER_SHARD and not calibration:
             ctx.count("unminimised_violations")
             key = prefix + divs[0]
             ctx.violation(key, what + " (not minimised: per-shard minimisation budget used up)",
@@ -805,6 +811,20 @@ class Monitor:
         self.confirmed.add(key)
         ctx.violation(key, what2, wit)
         return key
+
+    def calibrate(self, seed: int) -> None:
+        """Run a fixed list of tiny single-construct templates first, so that the mechanisms
+        they expose are keyed from their (tiny, hence unambiguous) witnesses and larger
+        random templates that contain the same divergence are attributed to the same key
+        instead of being minimised into some variant of it.  Not counted as evidence."""
+        datas = G.datasets(random.Random(f"{seed}:units:data"))
+        for kind, src in calibration_list():
+            case = Case(kind, src, G.PARTIALS, "", datas)
+            status, f, _ = roundtrip(case)
+            if status == "fail" and f is not None:
+                self.ctx.count("calibration_failures")
+                self._report(case, f, calibration=True)
+        self.minimised = 0
 
     def check(self, case: Case, *, do_pickle: bool, feats: Any = (), label: str = "") -> str:
         """Examine one subject.  Returns 'invalid' | 'ok' | violation key."""
@@ -893,6 +913,31 @@ class Monitor:
 # ---------------------------------------------------------------------------
 
 
+_CALIBRATION: list[tuple[str, str]] = []
+
+
+def calibration_list() -> list[tuple[str, str]]:
+    if not _CALIBRATION:
+        out = []
+        for p, _f in G.prims("any"):
+            out.append(("shopify", "{{ " + p + " }}"))
+            out.append(("shopify", "{{ s | append: " + p + " }}"))
+        for form, _f in G.FILTER_FORMS:
+            out.append(("shopify", form.replace("{s}", ", ").replace("{k}", ": ")))
+        for src, _f in G._tag_units():  # noqa: SLF001
+            out.append(("shopify", src))
+        n = 0
+        for b, _f in G._bool_trees():  # noqa: SLF001
+            n += 1
+            if n % 7 == 0:
+                out.append(("shopify", "{% if " + b + " %}T{% else %}F{% endif %}"))
+        for w in ("-", "~", "+"):
+            out.append(("shopify-minus", f" a {{{{{w} s {w}}}}} b {{%{w} if t {w}%}} c {{%{w} endif {w}%}} d "
+                        f"{{%{w} raw {w}%}} r {{%{w} endraw {w}%}} e "))
+        _CALIBRATION.extend(out)
+    return _CALIBRATION
+
+
 def _perturb(o: Any, depth: int = 0) -> Any:
     if depth > 12:
         return o
@@ -916,6 +961,7 @@ _TIME_DEPENDENT = re.compile(r"""['"](now|today)['"]""")
 
 def _corpus(spec: dict[str, Any], ctx: Ctx) -> None:
     mon = Monitor(ctx)
+    mon.calibrate(spec["seed"])
     thorough = spec["tier"] != "quick"
     last = None
     for ci, c in enumerate(corpus.valid_cases()):
@@ -961,6 +1007,7 @@ def _unit_list(tier: str) -> list[tuple[str, str, str]]:
 
 def _units(spec: dict[str, Any], ctx: Ctx) -> None:
     mon = Monitor(ctx)
+    mon.calibrate(spec["seed"])
     rng = random.Random(f"{spec['seed']}:units:data")
     datas = G.datasets(rng)  # the same 5 data sets in every units shard
     units = _unit_list(spec["tier"])
@@ -998,6 +1045,7 @@ def _units(spec: dict[str, Any], ctx: Ctx) -> None:
 
 def _compose(spec: dict[str, Any], ctx: Ctx) -> None:
     mon = Monitor(ctx)
+    mon.calibrate(spec["seed"])
     n = spec["count"]
     last = None
     for j in range(n):
